@@ -211,6 +211,26 @@ def run(an: Analysis, rep):
                        and isinstance(c.args[1], ast.Constant) and c.args[1].value == "\n" for c in calls)
             ok = ok and bool(fname_ok) and repl
             detail += " as \"<string>\" in exec mode after replacing escaped newlines"
+            # the text compiled is the option's text with that replacement only
+            if comp and comp[0].args:
+                txt = inline_locals(ast.Module(body=body, type_ignores=[]), comp[0].args[0])
+                while isinstance(txt, ast.Call) and isinstance(txt.func, ast.Name) and txt.func.id == "cast" and len(txt.args) == 2:
+                    txt = txt.args[1]
+                plain = (isinstance(txt, ast.Name) and umap.get(txt.id) == d) or (
+                    isinstance(txt, ast.Call) and isinstance(txt.func, ast.Attribute) and txt.func.attr == "replace" and isinstance(txt.func.value, ast.Name)
+                    and umap.get(txt.func.value.id) == d and len(txt.args) == 2 and isinstance(txt.args[0], ast.Constant) and txt.args[0].value == "\\n")
+                rep.add("R16.2", f"{fn.qual}::the text given with -{d} is compiled as given", plain, loc(m, comp[0]),
+                        "compile() receives the option's text (escaped newlines replaced), nothing else is done to it" if plain else
+                        f"compile() receives `{norm_src(txt)[:80]}`: the program text is rewritten before it is compiled, so string literals / layout of a valid program can change "
+                        f"(e.g. textwrap.dedent blanks a whitespace-only line inside a triple-quoted string) and what is printed describes another program")
+        if role == "e":
+            ev = [c for c in calls if isinstance(c.func, ast.Name) and c.func.id == "eval"]
+            for c in ev:
+                envs = [a for a in c.args[1:]] + [k.value for k in c.keywords]
+                hides = [e for e in envs if isinstance(e, ast.Dict) and any(isinstance(k, ast.Constant) and k.value == "__builtins__" for k in e.keys)]
+                rep.add("R16.2", f"{fn.qual}::the -e expression is evaluated with the builtins", not hides, loc(m, c),
+                        "eval() gets no replacement for __builtins__" if not hides else
+                        f"`{norm_src(c)[:80]}` removes the builtins: an expression that names one (`'x = ' + str(2 ** 70)`) raises NameError, so a valid program given with -e makes the command fail")
         rep.add("R16.2", f"{fn.qual}::role of option {d}", ok, loc(m, node),
                 detail if ok else f"the dispatch arm selected by option `{d}` uses it as `{role}` ({src[:80]})")
         i += 1
@@ -370,6 +390,24 @@ def run(an: Analysis, rep):
             node = node.orelse[0]
         else:
             break
+    # ---- R16.8 nothing on the command line is ignored
+    rep.rule("R16.8", "every argument is parsed: unknown or surplus arguments are a usage error", 1)
+    pcs = [c for c in ast.walk(fn.node) if isinstance(c, ast.Call) and isinstance(c.func, ast.Attribute) and c.func.attr in ("parse_args", "parse_known_args", "parse_intermixed_args", "parse_known_intermixed_args")]
+    if not pcs:
+        raise AnalysisError(f"{fn.qual}: the call that parses the command line was not found")
+    for pc in pcs:
+        lenient = "known" in pc.func.attr
+        if lenient:
+            # the leftovers may be rejected by hand: `args, extra = parse_known_args(); if extra: parser.error(...)`
+            for asg in ast.walk(fn.node):
+                if isinstance(asg, ast.Assign) and asg.value is pc and isinstance(asg.targets[0], ast.Tuple) and len(asg.targets[0].elts) == 2 and isinstance(asg.targets[0].elts[1], ast.Name):
+                    rest = asg.targets[0].elts[1].id
+                    if any(isinstance(x, ast.Name) and x.id == rest and isinstance(x.ctx, ast.Load) for x in ast.walk(fn.node)):
+                        raise AnalysisError(f"{fn.qual}: the arguments left over by `{norm_src(pc)}` are used afterwards (`{rest}`): whether they are rejected is not decided")
+        rep.add("R16.8", f"{fn.qual}::{pc.func.attr}()", not lenient, loc(m, pc),
+                "parse_args() exits with a usage error on anything it does not recognise" if not lenient else
+                f"`{norm_src(pc)}` returns what it does not recognise instead of rejecting it: a second program file (`a.py b.py`) is dropped silently and the command exits 0 "
+                f"although it was not given exactly one source")
     # ---- R16.7 the parser takes every argument literally
     rep.rule("R16.7", "the argument parser reads the command line literally (no @file expansion)", 1)
     pcalls = [c for c in ast.walk(m.tree) if isinstance(c, ast.Call) and (attr_chain(c.func) or "").split(".")[-1] == "ArgumentParser"]
